@@ -11,8 +11,8 @@
    [holds fn a cfg] = "if all sources of link a are present in cfg then compute_fn succeeds on their FINAL values and
    the target holds exactly the result" (for a target dest.init_args.x: or the class at dest takes no x);
    [fn : nat -> list val -> option val] interprets the compute functions and is universally quantified. *)
-From JV Require Import Lib.Base Lib.C15Val Model.C15Links
-  Proofs.C15Proofs Proofs.C15DumpProofs Proofs.C15ItemsProofs Proofs.C15FixedProofs Proofs.C15Witness.
+From JV Require Import Lib.Base Lib.C15Val Model.C15Links Model.C15Tree
+  Proofs.C15Proofs Proofs.C15DumpProofs Proofs.C15ItemsProofs Proofs.C15FixedProofs Proofs.C15Witness Proofs.C15TreeProofs.
 
 (* ---------------------------------------------------------------- 1. the invariant *)
 (* Every successful parse of every parser, whatever the input: each link holds in the result. The guard excludes
@@ -222,3 +222,40 @@ Example C15_fixed_dump_of_the_finding_input :
   strip_fixed (fst (build li_decls li_links)) li_cfg
   = VMap [(sU, VInt 7); (sCS, VList [VMap [(class_path, VStr sBase); (init_args, VMap [(sP, VInt 1)])]])].
 Proof. exact li_fixed_dump. Qed.
+
+(* ---------------------------------------------------------------- 8. one level of subcommands (Model/C15Tree.v)
+   A top-level parser p and the parser q of the chosen subcommand n; links declared in p, in q, or in both; parse and
+   dump go through the TOP parser. The hypothesis on p's targets says that the top parser declares nothing at or
+   below the subcommand's key (argparse would not let it). *)
+Theorem C15_tree_link_invariant :
+  forall (fn : nat -> list val -> option val) (classes : list cls)
+         (ds : list decl) (ls : list link) (ds' : list decl) (ls' : list link) (n : str) (pre cfg : val),
+    let p := fst (build ds ls) in
+    let q := fst (build ds' ls') in
+    overlap_free (map al_link (p_links p)) = true -> overlap_free (map al_link (p_links q)) = true ->
+    (forall a, In a (p_links p) -> comparable (al_tgt a) [n] = false) ->
+    finish_tree fn classes p q n pre = Ok cfg ->
+    (forall a, In a (p_links p) -> holds fn a cfg) /\
+    (forall subpre, get pre [n] = Some subpre ->
+       exists s, get cfg [n] = Some s /\ forall a, In a (p_links q) -> holds fn a s).
+Proof. exact tree_link_invariant. Qed.
+Print Assumptions C15_tree_link_invariant.
+
+(* The dump of the TOP parser holds no target of its own links and no target of the subcommand parser's links —
+   whether or not the top parser has any link of its own (any configuration). *)
+Theorem C15_tree_targets_absent_from_dump :
+  forall (ds : list decl) (ls : list link) (ds' : list decl) (ls' : list link) (n : str) (cfg : val),
+    let p := fst (build ds ls) in
+    let q := fst (build ds' ls') in
+    (forall a, In a (p_links p) -> al_tgt a <> [] ->
+       comparable (al_tgt a) [n] = false -> get (strip_tree strip p q n cfg) (al_tgt a) = None) /\
+    (forall a, In a (p_links q) -> al_tgt a <> [] -> get (strip_tree strip p q n cfg) (n :: al_tgt a) = None).
+Proof. exact tree_targets_absent_from_dump. Qed.
+Print Assumptions C15_tree_targets_absent_from_dump.
+
+Example C15_tree_links_only_in_subcommand :
+  p_links (fst (build tr_top [])) = [] /\
+  finish_tree wfn [] (fst (build tr_top [])) (fst (build ex_decls ex_links)) sFit tr_pre = Ok tr_cfg /\
+  strip_tree strip (fst (build tr_top [])) (fst (build ex_decls ex_links)) sFit tr_cfg
+  = VMap [(sS, VInt 3); (sFit, VMap [(sA, VInt 5); (sB, VInt 7)])].
+Proof. split; [exact tr_no_top_links|split; [exact tr_finish|exact tr_dump]]. Qed.
